@@ -3,6 +3,8 @@ CONSTANTS
   Family = "flags"
   MaxPaths = 2
   PathVersions = {2, 4}
+  AllOps = TRUE
+  TreeShapes = 3
   Bug_ExtStatSwap = FALSE
 INVARIANTS
   InvRoundTrip
